@@ -553,6 +553,7 @@ def check(ctx):
 
 
 MUTANTS = [
+    Mutant('shared-wrapper-keeps-long-words', IRC, '    return [chunk for line in str.split("\\n") for chunk in textwrap.wrap(line, length)]\n', '    wrapper = textwrap.TextWrapper(width=length, break_long_words=False)\n    return list(itertools.chain.from_iterable(map(wrapper.wrap, str.split("\\n"))))\n', expect_rule='split/wrap-arguments'),
     Mutant("lowquote-escape-unit-last", IRC, "    for c in (M_QUOTE, NUL, NL, CR):\n", "    for c in (NUL, NL, CR, M_QUOTE):\n", expect_rule="quote/escaper-order"),
     Mutant("lowquote-cr-row-not-applied", IRC, "    for c in (M_QUOTE, NUL, NL, CR):\n", "    for c in (M_QUOTE, NUL, NL):\n", expect_rule="quote/"),
     Mutant("ctcpquote-delim-before-escape", IRC, "    for c in (X_QUOTE, X_DELIM):\n", "    for c in (X_DELIM, X_QUOTE):\n", expect_rule="quote/escaper-order"),
@@ -586,6 +587,7 @@ MUTANTS = [
            expect_rule="send/single-wire-path"),
 ]
 SILENT = [
+    Silent('one-wrapper-for-all-paragraphs', IRC, '    return [chunk for line in str.split("\\n") for chunk in textwrap.wrap(line, length)]\n', '    wrapper = textwrap.TextWrapper(width=length)\n    return list(itertools.chain.from_iterable(map(wrapper.wrap, str.split("\\n"))))\n'),
     Silent("lowquote-explicit-chain", IRC, "    for c in (M_QUOTE, NUL, NL, CR):\n        s = s.replace(c, mQuoteTable[c])\n    return s\n\n\ndef lowDequote",
            "    return s.replace(M_QUOTE, mQuoteTable[M_QUOTE]).replace(CR, mQuoteTable[CR]).replace(NUL, mQuoteTable[NUL]).replace(NL, mQuoteTable[NL])\n\n\ndef lowDequote"),
     Silent("ctcpquote-ordered-tuple-with-local", IRC, "    for c in (X_QUOTE, X_DELIM):\n        s = s.replace(c, xQuoteTable[c])\n",
